@@ -247,13 +247,13 @@ func c03RunOne(c *Case, data []byte, plan []readStep, fault bool, desc string) (
 	// expected outcome
 	wantErr := fault || sp.status != "clean"
 	got := string(lib.Stdout)
-	okOut := got == full
+	okOut := got == full || sameLinesOrderFree(full, got) // the order in which object keys are printed is unspecified
 	if fault && !okOut && len(vals) > 0 && sp.status == "clean" {
 		// a reader error directly after a scalar: the scalar may or may not count as complete
 		last := vals[len(vals)-1]
 		if last[0] != '[' && last[0] != '{' && sp.lastEnd == len(data) {
 			_, alt := c03Outputs(vals[:len(vals)-1])
-			okOut = got == alt
+			okOut = got == alt || sameLinesOrderFree(alt, got)
 		}
 	}
 	switch {
@@ -317,7 +317,7 @@ func c03InProcess(c *Case) {
 		mark("chunk", k)
 		if k == 0 {
 			refClass, refOut = cl, out
-		} else if cl != refClass || out != refOut {
+		} else if cl != refClass || (out != refOut && !sameLinesOrderFree(refOut, out)) {
 			c.Violation(fmt.Sprintf("chunk plan %d gives a different result than one byte per read: %s vs %s | stream %s", k, cl, refClass, describeBytes(data)), nil, map[string]any{"stream": string(data)})
 			return
 		}
@@ -454,7 +454,7 @@ func c03Cli(c *Case) {
 		c.Violation("binary, stdin fed chunk by chunk: "+bad+" | stream "+describeBytes(data), nil, map[string]any{"stream": string(data)})
 		return
 	}
-	if out.String() != full || cmd.ProcessState.ExitCode() != 0 {
+	if (out.String() != full && !sameLinesOrderFree(full, out.String())) || cmd.ProcessState.ExitCode() != 0 {
 		c.Violation(fmt.Sprintf("binary on a clean stream: exit %d, stdout differs from the expected output of %d values: %s", cmd.ProcessState.ExitCode(), nv, diffAt(full, out.String())), nil, map[string]any{"stream": string(data), "stderr": errb.String()})
 		return
 	}
